@@ -533,23 +533,50 @@ fn unit_boundary_family(report: &mut Report) -> Vec<String> {
 // ------------------------------------------------------------------------------------------------
 // engine level
 // ------------------------------------------------------------------------------------------------
-static ROYALTY_PKG: std::sync::OnceLock<(PackageAddress, Decimal)> = std::sync::OnceLock::new();
-thread_local! { static ROY_CALLS: std::cell::Cell<u64> = std::cell::Cell::new(0); }
-fn roy_calls() -> u64 {
-    if ROYALTY_PKG.get().is_some() { ROY_CALLS.with(|c| c.get()) } else { 0 }
+/// royalty packages: (package, per-call royalty, royalty vault); model recipient ids 100, 101
+static ROYALTY_PKGS: std::sync::OnceLock<Vec<(PackageAddress, RoyaltyAmount, NodeId)>> = std::sync::OnceLock::new();
+thread_local! { static ROY_CALLS: std::cell::Cell<(u64, u64)> = std::cell::Cell::new((0, 0)); }
+fn roy_calls(i: usize) -> u64 {
+    match ROYALTY_PKGS.get() {
+        Some(v) if v.len() > i => ROY_CALLS.with(|c| if i == 0 { c.get().0 } else { c.get().1 }),
+        _ => 0,
+    }
 }
+const REWARDS_ID: i64 = -1;
 
 /// Publishes the pre-built `tuple_return` test package (if its build artefacts are present in /repo)
-/// with a package royalty of `amount` XRD on `TupleReturn::instantiate`.
-fn publish_royalty_package(ledger: &mut Ledger, amount: Decimal) -> Option<PackageAddress> {
+/// with a package royalty on `TupleReturn::instantiate`.
+fn publish_royalty_package(ledger: &mut Ledger, amount: RoyaltyAmount) -> Option<(PackageAddress, NodeId)> {
     let dir = "/repo/scrypto-test/tests/blueprints/target/wasm32-unknown-unknown/release";
     let code = std::fs::read(format!("{}/tuple_return.wasm", dir)).ok()?;
     let rpd = std::fs::read(format!("{}/tuple_return.rpd", dir)).ok()?;
     let mut definition: PackageDefinition = manifest_decode::<ManifestPackageDefinition>(&rpd).ok()?.try_into_typed().ok()?;
     let bp = definition.blueprints.get_mut("TupleReturn")?;
-    bp.royalty_config = PackageRoyaltyConfig::Enabled(indexmap!("instantiate".to_string() => RoyaltyAmount::Xrd(amount)));
-    let r = catch(std::panic::AssertUnwindSafe(|| ledger.publish_package((code, definition), BTreeMap::new(), OwnerRole::None)));
-    r.ok()
+    bp.royalty_config = PackageRoyaltyConfig::Enabled(indexmap!("instantiate".to_string() => amount));
+    let pk = catch(std::panic::AssertUnwindSafe(|| ledger.publish_package((code, definition), BTreeMap::new(), OwnerRole::None))).ok()?;
+    let reader = radix_engine::system::system_db_reader::SystemDatabaseReader::new(ledger.substate_db());
+    let acc = reader
+        .read_typed_object_field::<radix_engine::blueprints::package::PackageRoyaltyAccumulatorFieldPayload>(pk.as_node_id(), ModuleId::Main, radix_engine::blueprints::package::PackageField::RoyaltyAccumulator.field_index())
+        .ok()?
+        .fully_update_and_into_latest_version();
+    Some((pk, *acc.royalty_vault.0.as_node_id()))
+}
+
+/// rewards vault id, its balance, and proposer_rewards[validator 0]
+fn rewards_state(ledger: &mut Ledger) -> (NodeId, Decimal, Decimal) {
+    let reader = radix_engine::system::system_db_reader::SystemDatabaseReader::new(ledger.substate_db());
+    let r = reader
+        .read_typed_object_field::<radix_engine::blueprints::consensus_manager::ConsensusManagerValidatorRewardsFieldPayload>(
+            CONSENSUS_MANAGER.as_node_id(),
+            ModuleId::Main,
+            radix_engine::blueprints::consensus_manager::ConsensusManagerField::ValidatorRewards.field_index(),
+        )
+        .unwrap()
+        .fully_update_and_into_latest_version();
+    let vault = *r.rewards_vault.0.as_node_id();
+    let leader = r.proposer_rewards.get(&0u8).cloned().unwrap_or(Decimal::ZERO);
+    let bal = ledger.inspect_vault_balance(vault).unwrap_or(Decimal::ZERO);
+    (vault, bal, leader)
 }
 
 struct Acct {
@@ -603,8 +630,10 @@ fn build_tx(ledger: &mut Ledger, accts: &[Acct], locks: &[Lock], fail: bool, tip
                     for _ in 0..work {
                         m = m.withdraw_from_account(accts[0].addr, XRD, dec!(1)).deposit_entire_worktop(accts[0].addr);
                     }
-                    for _ in 0..roy_calls() {
-                        m = m.call_function(ROYALTY_PKG.get().unwrap().0, "TupleReturn", "instantiate", ());
+                    for i in 0..2usize {
+                        for _ in 0..roy_calls(i) {
+                            m = m.call_function(ROYALTY_PKGS.get().unwrap()[i].0, "TupleReturn", "instantiate", ());
+                        }
                     }
                     if fail {
                         m = m.assert_worktop_contains(XRD, dec!(1));
@@ -629,8 +658,10 @@ fn build_tx(ledger: &mut Ledger, accts: &[Acct], locks: &[Lock], fail: bool, tip
             for _ in 0..work {
                 m = m.withdraw_from_account(accts[0].addr, XRD, dec!(1)).deposit_entire_worktop(accts[0].addr);
             }
-            for _ in 0..roy_calls() {
-                m = m.call_function(ROYALTY_PKG.get().unwrap().0, "TupleReturn", "instantiate", ());
+            for i in 0..2usize {
+                for _ in 0..roy_calls(i) {
+                    m = m.call_function(ROYALTY_PKGS.get().unwrap()[i].0, "TupleReturn", "instantiate", ());
+                }
             }
             if fail {
                 m = m.assert_worktop_contains(XRD, dec!(1));
@@ -689,7 +720,8 @@ fn engine_case(
     let ex = build_tx(ledger, accts, locks, fail, tip, work);
     let ex = if free.is_positive() { ex.apply_free_credit(free) } else { ex };
     let before: Vec<Decimal> = accts.iter().map(|a| balance(ledger, a)).collect();
-    let roy_before = ROYALTY_PKG.get().and_then(|(pk, _)| ledger.inspect_package_royalty(*pk));
+    let roy_before: Vec<Decimal> = ROYALTY_PKGS.get().map(|v| v.iter().map(|x| ledger.inspect_vault_balance(x.2).unwrap_or(Decimal::ZERO)).collect()).unwrap_or_default();
+    let (rewards_vault, rewards_before, leader_before) = rewards_state(ledger);
     let cfg = exec_config(p);
     let res = catch(std::panic::AssertUnwindSafe(|| ledger.execute_transaction(ex, cfg)));
     let input = json!({"params": params_coq(p), "tip": tip_coq(tip), "free": free.to_string(), "fail": fail,
@@ -745,16 +777,91 @@ fn engine_case(
     if fd.to_proposer + fd.to_validator_set + fd.to_burn + roy != total {
         fails.push(format!("proposer {} + validator set {} + burn {} + royalties {} != total cost {}", fd.to_proposer, fd.to_validator_set, fd.to_burn, roy, total));
     }
-    if let (Some((pk, amount)), Some(rb)) = (ROYALTY_PKG.get(), roy_before) {
-        let ra = ledger.inspect_package_royalty(*pk).unwrap_or(Decimal::ZERO);
-        let expected = if ok { *amount * Decimal::from(roy_calls()) } else { Decimal::ZERO };
-        if ra - rb != roy || roy != fs.total_royalty_cost_in_xrd || roy != expected {
-            fails.push(format!("royalty vault credited {} but fee_destination says {}, fee_summary {} and the configuration {}", ra - rb, roy, fs.total_royalty_cost_in_xrd, expected));
+    if let Some(pkgs) = ROYALTY_PKGS.get() {
+        let mut expected_total = Decimal::ZERO;
+        for (i, (pk, amount, vault)) in pkgs.iter().enumerate() {
+            let per_call = match amount {
+                RoyaltyAmount::Xrd(a) => *a,
+                RoyaltyAmount::Usd(u) => u.checked_mul(p.usd_price).unwrap(),
+                RoyaltyAmount::Free => Decimal::ZERO,
+            };
+            let expected = if ok { per_call * Decimal::from(roy_calls(i)) } else { Decimal::ZERO };
+            expected_total = expected_total + expected;
+            let credited = ledger.inspect_vault_balance(*vault).unwrap_or(Decimal::ZERO) - roy_before[i];
+            let reported = fd.to_royalty_recipients.iter().find(|(k, _)| matches!(k, RoyaltyRecipient::Package(a, _) if a == pk)).map(|(_, v)| *v).unwrap_or(Decimal::ZERO);
+            if credited != expected || reported != expected {
+                fails.push(format!("royalty package {}: vault credited {}, fee_destination says {}, configuration implies {}", i, credited, reported, expected));
+            }
+            if expected.is_positive() {
+                report.count(if i == 0 { "engine_royalty_paid" } else { "engine_usd_royalty_paid" });
+            }
         }
-        if roy.is_positive() {
-            report.count("engine_royalty_paid");
+        if roy != expected_total || roy != fs.total_royalty_cost_in_xrd {
+            fails.push(format!("royalties: fee_destination total {} fee_summary {} expected {}", roy, fs.total_royalty_cost_in_xrd, expected_total));
         }
     }
+    // validator rewards bookkeeping: the rewards vault receives proposer + validator-set rewards, the
+    // leader's proposer_rewards entry grows by the proposer reward
+    let (_, rewards_after, leader_after) = rewards_state(ledger);
+    if rewards_after - rewards_before != fd.to_proposer + fd.to_validator_set {
+        fails.push(format!("rewards vault changed by {} but proposer + validator set = {}", rewards_after - rewards_before, fd.to_proposer + fd.to_validator_set));
+    }
+    if leader_after - leader_before != fd.to_proposer {
+        fails.push(format!("proposer_rewards[leader] changed by {} but to_proposer = {}", leader_after - leader_before, fd.to_proposer));
+    }
+    // finalisation events: the tail of the application events
+    let n_roy = fd.to_royalty_recipients.len();
+    let n_fin = n_roy + locks.len() + if !fd.to_proposer.is_zero() || !fd.to_validator_set.is_zero() { 1 } else { 0 } + if fd.to_burn.is_positive() { 1 } else { 0 };
+    let evs_all = &commit.application_events;
+    let tail = &evs_all[evs_all.len().saturating_sub(n_fin)..];
+    let vault_id = |n: &NodeId| -> i64 {
+        if let Some(i) = accts.iter().position(|x| x.vault == *n) {
+            return i as i64;
+        }
+        if *n == rewards_vault {
+            return REWARDS_ID;
+        }
+        if let Some(v) = ROYALTY_PKGS.get() {
+            if let Some(i) = v.iter().position(|x| x.2 == *n) {
+                return 100 + i as i64;
+            }
+        }
+        999
+    };
+    let mut ev_terms = vec![];
+    let (mut ev_in, mut ev_out) = (Decimal::ZERO, Decimal::ZERO);
+    for (id, data) in tail {
+        let node = match &id.0 {
+            Emitter::Method(n, _) => *n,
+            Emitter::Function(_) => NodeId([0u8; NodeId::LENGTH]),
+        };
+        match id.1.as_str() {
+            "PayFeeEvent" => {
+                let e: radix_engine::blueprints::resource::fungible_vault::PayFeeEvent = scrypto_decode(data).unwrap();
+                ev_in = ev_in + e.amount;
+                ev_terms.push(format!("EvPayFee {} {}", coq_z(vault_id(&node)), dz(e.amount)));
+            }
+            "DepositEvent" => {
+                let e: radix_engine::blueprints::resource::fungible_vault::DepositEvent = scrypto_decode(data).unwrap();
+                ev_out = ev_out + e.amount;
+                ev_terms.push(format!("EvDeposit {} {}", coq_z(vault_id(&node)), dz(e.amount)));
+            }
+            "BurnFungibleResourceEvent" => {
+                let e: radix_engine::blueprints::resource::BurnFungibleResourceEvent = scrypto_decode(data).unwrap();
+                ev_out = ev_out + e.amount;
+                if node != XRD.into_node_id() {
+                    fails.push("burn event not emitted by the XRD resource manager".into());
+                }
+                ev_terms.push(format!("EvBurn {}", dz(e.amount)));
+            }
+            other => ev_terms.push(format!("EvBurn (-1)%Z (* unexpected event {} *)", other.chars().filter(|c| c.is_ascii_alphanumeric()).collect::<String>())),
+        }
+    }
+    // direct oracle on the events: taken from vaults + free credit used = deposited + burnt = total cost
+    if ev_in + free_used != ev_out || ev_out != total {
+        fails.push(format!("finalisation events do not balance: PayFee {} + free credit {} vs Deposit+Burn {} vs total cost {}", ev_in, free_used, ev_out, total));
+    }
+    report.count_n("engine_finalisation_events", ev_terms.len() as u64);
     if fd.to_proposer.is_negative() || fd.to_validator_set.is_negative() || fd.to_burn.is_negative() {
         fails.push("negative fee destination".into());
     }
@@ -776,6 +883,13 @@ fn engine_case(
         report.oracle_failure(idx, "", &f, input.clone());
     }
     // ---- Coq case ----
+    let roy_obs = coq_list(fd.to_royalty_recipients.iter().map(|(k, v)| {
+        let id = match k {
+            RoyaltyRecipient::Package(a, _) => ROYALTY_PKGS.get().and_then(|v| v.iter().position(|x| x.0 == *a)).map(|i| 100 + i as i64).unwrap_or(998),
+            _ => 997,
+        };
+        format!("({}, {})", coq_z(id), dz(*v))
+    }));
     let summary = format!(
         "(mkSummary {} {} {} {} {} {} {} 0%Z {} {})",
         coq_z(fs.total_execution_cost_units_consumed),
@@ -786,19 +900,15 @@ fn engine_case(
         dz(fs.total_storage_cost_in_xrd),
         dz(fs.total_royalty_cost_in_xrd),
         coq_list(locks.iter().map(|l| format!("({}, {}, {})", coq_z(l.acct), dz(l.amount), coq_bool(l.contingent)))),
-        // the reserve's breakdown: what was consumed per recipient (recipient 0 = the royalty package)
-        if fs.total_royalty_cost_in_xrd.is_zero() { "[]".to_string() } else { format!("[(0%Z, {})]", dz(fs.total_royalty_cost_in_xrd)) }
+        // the reserve's breakdown: what was consumed per recipient (recipients 100, 101 = the royalty packages)
+        roy_obs
     );
-    let roy_obs = coq_list(fd.to_royalty_recipients.iter().map(|(k, v)| {
-        let is_pkg = matches!(k, RoyaltyRecipient::Package(a, _) if Some(*a) == ROYALTY_PKG.get().map(|x| x.0));
-        format!("({}, {})", coq_z(if is_pkg { 0 } else { 99 }), dz(*v))
-    }));
     let pay = coq_list(commit.fee_source.paying_vaults.iter().map(|(v, a)| {
         let i = accts.iter().position(|x| x.vault == *v).map(|x| x as i64).unwrap_or(-1);
         format!("({}, {})", coq_z(i), dz(*a))
     }));
     let term = format!(
-        "CDist {} {} {} {} {} {} (DObs {} {} {} {} {})",
+        "CDist {} {} {} {} {} {} (DObs {} {} {} {} {} {} {} {})",
         shares_coq(),
         params_coq(p),
         tip_coq(tip),
@@ -809,7 +919,10 @@ fn engine_case(
         dz(fd.to_proposer),
         dz(fd.to_validator_set),
         dz(fd.to_burn),
-        roy_obs
+        roy_obs,
+        coq_list(ev_terms.into_iter()),
+        dz(rewards_after - rewards_before),
+        dz(leader_after - leader_before)
     );
     report.case(&term, locks.len() > 1 || !tip_coq(tip).contains("TipNone"));
     Some(term)
@@ -871,30 +984,35 @@ fn engine_boundary_family(ledger: &mut Ledger, accts: &[Acct], report: &mut Repo
     odd.execution_cost_unit_price = attos(123_456_789);
     odd.finalization_cost_unit_price = attos(50_000_000_003);
     odd.state_storage_price = attos(95_367_430_000_001);
+    let mut odd_usd = g;
+    odd_usd.usd_price = attos(16_666_666_666_666_666_667);
     let l = |acct: usize, amount: Decimal, contingent: bool| Lock { acct, amount, contingent };
     let none = TipSpecifier::None;
-    let cases: Vec<(&str, CostingParameters, TipSpecifier, Vec<Lock>, Decimal, bool, u64, u64)> = vec![
-        ("b_engine_contingent_last_success", g, none, vec![l(0, dec!(400), false), l(1, dec!(400), true)], Decimal::ZERO, false, 1, 0),
-        ("b_engine_contingent_last_failure", g, none, vec![l(0, dec!(400), false), l(1, dec!(400), true)], Decimal::ZERO, true, 1, 0),
-        ("b_engine_contingent_first_success", g, none, vec![l(1, dec!(400), true), l(0, dec!(400), false)], Decimal::ZERO, false, 1, 0),
-        ("b_engine_contingent_first_failure", g, none, vec![l(1, dec!(400), true), l(0, dec!(400), false)], Decimal::ZERO, true, 1, 0),
-        ("b_engine_small_contingent_used_up_on_success", g, none, vec![l(0, dec!(400), false), l(2, dec!("0.05"), true)], Decimal::ZERO, false, 1, 0),
-        ("b_engine_small_last_lock_used_up", g, none, vec![l(0, dec!(400), false), l(2, dec!("0.05"), false)], Decimal::ZERO, false, 1, 0),
-        ("b_engine_three_locks", g, TipSpecifier::Percentage(5), vec![l(2, dec!(400), false), l(1, dec!("0.05"), true), l(0, dec!("0.05"), false)], Decimal::ZERO, false, 2, 0),
-        ("b_engine_three_locks", g, TipSpecifier::Percentage(5), vec![l(2, dec!(400), false), l(1, dec!("0.05"), true), l(0, dec!("0.05"), false)], Decimal::ZERO, true, 2, 0),
-        ("b_engine_free_credit_unused", g, none, vec![l(0, dec!(400), false)], dec!("0.1"), false, 1, 0),
-        ("b_engine_free_credit_partly_used", g, none, vec![l(0, dec!("0.05"), false)], dec!(1000), false, 1, 0),
-        ("b_engine_free_credit_partly_used", g, none, vec![l(0, dec!("0.05"), false)], dec!(1000), true, 1, 0),
-        ("b_engine_odd_prices_share_rounding", odd, TipSpecifier::BasisPoints(33), vec![l(0, dec!(400), false)], Decimal::ZERO, false, 2, 0),
-        ("b_engine_odd_prices_share_rounding", odd, TipSpecifier::Percentage(7), vec![l(1, dec!(400), false), l(0, dec!(1), true)], Decimal::ZERO, true, 0, 0),
-        ("b_engine_tip_basis_points", g, TipSpecifier::BasisPoints(1), vec![l(0, dec!(400), false)], Decimal::ZERO, false, 0, 0),
-        ("b_engine_tip_percentage_large", g, TipSpecifier::Percentage(777), vec![l(0, dec!(4000), false)], Decimal::ZERO, false, 0, 0),
-        ("b_engine_royalty_success", g, none, vec![l(0, dec!(400), false)], Decimal::ZERO, false, 0, 2),
-        ("b_engine_royalty_reverted_on_failure", g, none, vec![l(0, dec!(400), false), l(1, dec!(10), true)], Decimal::ZERO, true, 0, 1),
-        ("b_engine_royalty_with_tip", g, TipSpecifier::BasisPoints(250), vec![l(1, dec!(400), false)], Decimal::ZERO, false, 1, 1),
+    let cases: Vec<(&str, CostingParameters, TipSpecifier, Vec<Lock>, Decimal, bool, u64, (u64, u64))> = vec![
+        ("b_engine_contingent_last_success", g, none, vec![l(0, dec!(400), false), l(1, dec!(400), true)], Decimal::ZERO, false, 1, (0, 0)),
+        ("b_engine_contingent_last_failure", g, none, vec![l(0, dec!(400), false), l(1, dec!(400), true)], Decimal::ZERO, true, 1, (0, 0)),
+        ("b_engine_contingent_first_success", g, none, vec![l(1, dec!(400), true), l(0, dec!(400), false)], Decimal::ZERO, false, 1, (0, 0)),
+        ("b_engine_contingent_first_failure", g, none, vec![l(1, dec!(400), true), l(0, dec!(400), false)], Decimal::ZERO, true, 1, (0, 0)),
+        ("b_engine_small_contingent_used_up_on_success", g, none, vec![l(0, dec!(400), false), l(2, dec!("0.05"), true)], Decimal::ZERO, false, 1, (0, 0)),
+        ("b_engine_small_last_lock_used_up", g, none, vec![l(0, dec!(400), false), l(2, dec!("0.05"), false)], Decimal::ZERO, false, 1, (0, 0)),
+        ("b_engine_three_locks", g, TipSpecifier::Percentage(5), vec![l(2, dec!(400), false), l(1, dec!("0.05"), true), l(0, dec!("0.05"), false)], Decimal::ZERO, false, 2, (0, 0)),
+        ("b_engine_three_locks", g, TipSpecifier::Percentage(5), vec![l(2, dec!(400), false), l(1, dec!("0.05"), true), l(0, dec!("0.05"), false)], Decimal::ZERO, true, 2, (0, 0)),
+        ("b_engine_free_credit_unused", g, none, vec![l(0, dec!(400), false)], dec!("0.1"), false, 1, (0, 0)),
+        ("b_engine_free_credit_partly_used", g, none, vec![l(0, dec!("0.05"), false)], dec!(1000), false, 1, (0, 0)),
+        ("b_engine_free_credit_partly_used", g, none, vec![l(0, dec!("0.05"), false)], dec!(1000), true, 1, (0, 0)),
+        ("b_engine_odd_prices_share_rounding", odd, TipSpecifier::BasisPoints(33), vec![l(0, dec!(400), false)], Decimal::ZERO, false, 2, (0, 0)),
+        ("b_engine_odd_prices_share_rounding", odd, TipSpecifier::Percentage(7), vec![l(1, dec!(400), false), l(0, dec!(1), true)], Decimal::ZERO, true, 0, (0, 0)),
+        ("b_engine_tip_basis_points", g, TipSpecifier::BasisPoints(1), vec![l(0, dec!(400), false)], Decimal::ZERO, false, 0, (0, 0)),
+        ("b_engine_tip_percentage_large", g, TipSpecifier::Percentage(777), vec![l(0, dec!(4000), false)], Decimal::ZERO, false, 0, (0, 0)),
+        ("b_engine_royalty_success", g, none, vec![l(0, dec!(400), false)], Decimal::ZERO, false, 0, (2, 0)),
+        ("b_engine_royalty_reverted_on_failure", g, none, vec![l(0, dec!(400), false), l(1, dec!(10), true)], Decimal::ZERO, true, 0, (1, 0)),
+        ("b_engine_royalty_with_tip", g, TipSpecifier::BasisPoints(250), vec![l(1, dec!(400), false)], Decimal::ZERO, false, 1, (1, 0)),
+        ("b_engine_usd_royalty_success", g, none, vec![l(0, dec!(400), false)], Decimal::ZERO, false, 0, (0, 2)),
+        ("b_engine_usd_royalty_odd_usd_price", odd_usd, TipSpecifier::BasisPoints(33), vec![l(1, dec!(400), false)], Decimal::ZERO, false, 0, (1, 1)),
+        ("b_engine_usd_royalty_reverted_on_failure", g, none, vec![l(0, dec!(400), false)], Decimal::ZERO, true, 0, (1, 1)),
     ];
     for (class, p, tip, locks, free, fail, work, roy) in cases {
-        if roy > 0 && ROYALTY_PKG.get().is_none() {
+        if (roy.0 > 0 || roy.1 > 0) && ROYALTY_PKGS.get().map_or(true, |v| v.len() < 2) {
             report.count(class); // artefact missing: recorded in the notes, the class cannot be produced
             continue;
         }
@@ -908,7 +1026,7 @@ fn engine_boundary_family(ledger: &mut Ledger, accts: &[Acct], report: &mut Repo
         }
         *idx += 1;
     }
-    ROY_CALLS.with(|c| c.set(0));
+    ROY_CALLS.with(|c| c.set((0, 0)));
     // lock exactly the total cost (exact parameters: deducted == total): refund 0, nothing missing
     for (class, delta) in [("b_engine_lock_equals_total_cost", 0i128), ("b_engine_lock_one_atto_above_total_cost", 1)] {
         let tip = TipSpecifier::Percentage(3);
@@ -984,12 +1102,16 @@ fn main() {
         accts.push(Acct { pk, sk, addr, vault });
     }
     let _ = &accts[0].pk;
-    match publish_royalty_package(&mut ledger, dec!(2)) {
-        Some(pk) => {
-            let _ = ROYALTY_PKG.set((pk, dec!(2)));
-            report.count("royalty_package_published");
+    {
+        let a1 = RoyaltyAmount::Xrd(dec!(2));
+        let a2 = RoyaltyAmount::Usd(dec!("0.03"));
+        match (publish_royalty_package(&mut ledger, a1.clone()), publish_royalty_package(&mut ledger, a2.clone())) {
+            (Some((p1, v1)), Some((p2, v2))) => {
+                let _ = ROYALTY_PKGS.set(vec![(p1, a1, v1), (p2, a2, v2)]);
+                report.count("royalty_package_published");
+            }
+            _ => report.notes.push("royalty package artefacts not found: engine-level royalty cases skipped".into()),
         }
-        None => report.notes.push("royalty package artefacts not found: engine-level royalty cases skipped".into()),
     }
     engine_boundary_family(&mut ledger, &accts, &mut report, &mut cw, &mut idx);
     let g = CostingParameters::babylon_genesis();
@@ -1045,7 +1167,7 @@ fn main() {
         };
         let fail = rng.chance(1, 4);
         let work = rng.below(3);
-        ROY_CALLS.with(|c| c.set(if rng.chance(1, 3) { 1 + rng.below(2) } else { 0 }));
+        ROY_CALLS.with(|c| c.set(if rng.chance(1, 3) { (rng.below(3), rng.below(2)) } else { (0, 0) }));
         if let Some(t) = engine_case(&mut ledger, &accts, &p, &tip, &locks, free, fail, work, &mut report, idx) {
             cw.push(t);
         }
@@ -1067,6 +1189,7 @@ fn main() {
         "b_engine_three_locks", "b_engine_free_credit_unused", "b_engine_free_credit_partly_used",
         "b_engine_odd_prices_share_rounding", "b_engine_tip_basis_points", "b_engine_tip_percentage_large",
         "b_engine_royalty_success", "b_engine_royalty_reverted_on_failure", "b_engine_royalty_with_tip",
+        "b_engine_usd_royalty_success", "b_engine_usd_royalty_odd_usd_price", "b_engine_usd_royalty_reverted_on_failure",
         "b_engine_lock_equals_total_cost", "b_engine_lock_one_atto_above_total_cost",
         "b_engine_lock_one_atto_below_total_cost_rejected",
     ];
